@@ -358,9 +358,15 @@ def check_struct_block(ctx):
         okc = False
         if isinstance(codes, ast.Call) and isinstance(codes.func, ast.Attribute) and codes.func.attr == 'join' and isinstance(codes.func.value, ast.Constant) \
                 and codes.func.value.value == '' and codes.args:
-            sh = comp_over_run(codes.args[0], G)
-            okc = sh is not None and isinstance(sh[1], ast.Attribute) and sh[1].attr == 'struct_code' and isinstance(sh[1].value, ast.Name) and sh[0][2] == sh[1].value.id
-        if okp and okc:
+            sh = run_projection(repo, codes.args[0], G)
+            okc = None
+            if sh is not None and sh[0] == 'not-the-run':
+                okc = False
+            elif sh is not None and isinstance(sh[2], ast.Attribute) and sh[2].attr == 'struct_code':
+                okc = member_component(repo, sh[2].value, sh[1], 2)
+        if okp and okc is None:
+            ctx.undecided(rule, fi, st, 'cannot see that the codes are the struct_code of every member of the run, in order', fi.node.lineno, clause='d')
+        elif okp and okc:
             ok = True
             ctx.holds(rule, fi, st, "prefix from the run's endianness, then every member's struct_code in run order", fi.node.lineno, clause='d')
         elif not okp:
@@ -374,12 +380,23 @@ def check_struct_block(ctx):
     st = 'lookup_fields = %s' % (canon(lf, {G: 'G'}) if lf is not None else None)
     oklf = False
     if isinstance(lf, ast.Call) and isinstance(lf.func, ast.Attribute) and lf.func.attr == 'join' and lf.args:
-        sh = comp_over_run(lf.args[0], G)
-        if sh is not None and isinstance(sh[1], ast.BinOp) and isinstance(sh[1].op, ast.Mod) and isinstance(sh[1].left, ast.Constant) \
-                and sh[1].left.value.startswith('pkt.%(name)s'):
-            d = sh[1].right
-            oklf = isinstance(d, ast.Dict) and len(d.keys) == 1 and d.keys[0].value == 'name' and isinstance(d.values[0], ast.Name) and d.values[0].id == sh[0][1]
-    if oklf:
+        sh = run_projection(repo, lf.args[0], G)
+        if sh is not None and sh[0] == 'not-the-run':
+            oklf = False
+        elif sh is not None and isinstance(sh[2], ast.BinOp) and isinstance(sh[2].op, ast.Mod) and isinstance(sh[2].left, ast.Constant) \
+                and isinstance(sh[2].left.value, str) and sh[2].left.value.startswith('pkt.%(name)s'):
+            d = sh[2].right
+            if isinstance(d, ast.Dict) and len(d.keys) == 1 and d.keys[0].value == 'name':
+                oklf = member_component(repo, d.values[0], sh[1], 1)
+            else:
+                oklf = None
+        else:
+            oklf = None
+    else:
+        oklf = None
+    if oklf is None:
+        ctx.undecided(rule, fi, st[:160], 'cannot see that the targets / values are pkt.<name> for every member of the run, in run order', fi.node.lineno, clause='d')
+    elif oklf:
         ctx.holds(rule, fi, st[:160], 'pkt.<name> for every member of the run in run order', fi.node.lineno, clause='d')
     else:
         ctx.violation(rule, fi, st[:200], 'targets / values are not pkt.<name> for every member of the run, in run order', fi.node.lineno, clause='d')
@@ -474,7 +491,26 @@ def check_struct_block(ctx):
             else:
                 ctx.violation(rule, ff, st, 'the run handed to the struct block is not a groupby run keyed on is_bigendian (key: %s): fields of different endianness share one format prefix' % keyed, c.lineno, clause='d')
             continue
-        ctx.violation(rule, ff, st, 'the run handed to the struct block is neither a singleton with its own endianness nor a run keyed on is_bigendian', c.lineno, clause='d')
+        # case 1': singleton [entry] with entry.<field>.is_bigendian, entry the comprehension's element
+        if isinstance(grp, ast.List) and len(grp.elts) == 1 and isinstance(grp.elts[0], ast.Name) and isinstance(gen.target, ast.Name) \
+                and grp.elts[0].id == gen.target.id and not gen.ifs and isinstance(be, ast.Attribute) and be.attr == 'is_bigendian':
+            own = member_component(repo, be.value, gen.target, 2)
+            if own:
+                ctx.holds(rule, ff, st, 'singleton run packed with its own endianness', c.lineno, clause='d')
+            elif own is False:
+                ctx.violation(rule, ff, st, 'a single field is packed with an endianness that is not its own is_bigendian', c.lineno, clause='d', witness=True)
+            else:
+                ctx.undecided(rule, ff, st, 'cannot see that the endianness is the field\'s own', c.lineno, clause='d')
+            continue
+        # the endianness of the first member of ANOTHER list than the run that is packed
+        if isinstance(grp, ast.Name) and isinstance(be, ast.Attribute) and be.attr == 'is_bigendian':
+            base = be.value
+            while isinstance(base, (ast.Subscript, ast.Attribute)):
+                base = base.value
+            if isinstance(base, ast.Name) and base.id != grp.id and base.id not in [x.id for x in ast.walk(gen.target) if isinstance(x, ast.Name)]:
+                ctx.violation(rule, ff, st, 'the run %s is packed with the endianness of a member of %s, another list: fields of different endianness share one format prefix' % (grp.id, base.id), c.lineno, clause='d', witness=True)
+                continue
+        ctx.undecided(rule, ff, st, 'the run handed to the struct block is neither a singleton with its own endianness nor a run keyed on is_bigendian in a form the rule reads', c.lineno, clause='d')
     ctx.floor('struct-block call sites', len(sites), 2)
 
 
@@ -491,6 +527,40 @@ def comp_over_run(node, G):
     return [x.id for x in g.target.elts], node.elt
 
 
+def run_projection(repo, node, G):
+    """node: a comprehension over the run G.  -> ('over-run', target, elt) when it visits every member
+    of G once, in order; ('not-the-run', why) when it visibly does not (a filter, another
+    iterable); None when it is not a comprehension at all"""
+    if not isinstance(node, (ast.ListComp, ast.GeneratorExp)) or len(node.generators) != 1:
+        return None
+    g = node.generators[0]
+    if g.ifs:
+        return ('not-the-run', 'members are filtered')
+    if not (isinstance(g.iter, ast.Name) and g.iter.id == G):
+        return ('not-the-run', 'iterates %s' % canon(g.iter)[:40])
+    return ('over-run', g.target, node.elt)
+
+
+def member_component(repo, e, target, idx):
+    """does ``e`` denote component ``idx`` of the (index, name, field) entry bound by ``target``?
+    True / False / None (cannot tell).  The entry may be unpacked by a tuple target, indexed,
+    or read through a field name of a namedtuple of the module"""
+    if isinstance(target, ast.Tuple) and len(target.elts) == 3 and all(isinstance(x, ast.Name) for x in target.elts):
+        if isinstance(e, ast.Name):
+            ids = [x.id for x in target.elts]
+            return ids.index(e.id) == idx if e.id in ids else None
+        return None
+    if isinstance(target, ast.Name):
+        if isinstance(e, ast.Subscript) and isinstance(e.value, ast.Name) and e.value.id == target.id and isinstance(e.slice, ast.Constant):
+            return e.slice.value == idx
+        if isinstance(e, ast.Attribute) and isinstance(e.value, ast.Name) and e.value.id == target.id:
+            from .c09 import namedtuple_fields
+            hits = {tuple(f) for f in namedtuple_fields(repo.modules['codegen']['tree']).values() if e.attr in f}
+            if len(hits) == 1:
+                return list(hits)[0].index(e.attr) == idx
+    return None
+
+
 def find_groupby_key(func, src):
     """src is a Name bound to [(k, list(g)) for k, g in groupby(X, lambda t: t[2].ATTR)] -> 'ATTR path'"""
     if not isinstance(src, ast.Name):
@@ -498,9 +568,14 @@ def find_groupby_key(func, src):
     for n in ast.walk(func):
         if isinstance(n, ast.Assign) and isinstance(n.targets[0], ast.Name) and n.targets[0].id == src.id:
             for c in ast.walk(n.value):
-                if isinstance(c, ast.Call) and call_name(c) in ('itertools.groupby', 'groupby') and len(c.args) == 2 and isinstance(c.args[1], ast.Lambda):
+                if isinstance(c, ast.Call) and call_name(c) in ('itertools.groupby', 'groupby') and len(c.args) == 2:
                     lam = c.args[1]
-                    return canon(lam.body, {lam.args.args[0].arg: 'T'})
+                    if isinstance(lam, ast.Name):
+                        # key = lambda ...: bound once in the function
+                        defs = [a.value for a in ast.walk(func) if isinstance(a, ast.Assign) and len(a.targets) == 1 and isinstance(a.targets[0], ast.Name) and a.targets[0].id == lam.id]
+                        lam = defs[0] if len(defs) == 1 else None
+                    if isinstance(lam, ast.Lambda) and lam.args.args:
+                        return canon(lam.body, {lam.args.args[0].arg: 'T'})
     return None
 
 
